@@ -103,6 +103,8 @@ var methodTable = map[string]string{
 // seamTable maps functions of un-instrumented packages to their substitutes in verif/sim/seams.
 var seamTable = map[string]string{
 	"github.com/AliyunContainerService/terway/pkg/link.GetDeviceNumber": "GetDeviceNumber",
+	// its ticker-vs-deadline select ties when timeout is a multiple of interval (see seams)
+	"k8s.io/apimachinery/pkg/util/wait.PollUntilContextTimeout": "PollUntilContextTimeout",
 }
 
 func (r *rewriter) planCall(call *ast.CallExpr) {
@@ -675,7 +677,7 @@ func unusedImports(f *ast.File) [][2]string {
 			}
 		} else {
 			name = path[strings.LastIndex(path, "/")+1:]
-			if path != "time" && path != "github.com/AliyunContainerService/terway/pkg/link" {
+			if path != "time" && path != "github.com/AliyunContainerService/terway/pkg/link" && path != "k8s.io/apimachinery/pkg/util/wait" {
 				continue // only imports the rewrite can orphan
 			}
 		}
